@@ -3,11 +3,13 @@
    OpsProofsGas       gas and memory-size functions = Yellow-Paper formulas, uint64 overflow explicit
    OpsProofsJumpdest  JUMPDEST analysis (codeBitmap / has) = valid jump destinations
    OpsProofsMem       stack / memory / call-data / code instructions = specification
+   OpsProofsEnv       SHA3 (relative to H), environment instructions, write protection
+   OpsProofsGasState  state-dependent gas functions (SSTORE, CALL family, SELFDESTRUCT, table lookups)
    OpsProofsTable     regenerated jump tables = specification table; fork -> table selection; constants
    and, below, the per-family conjunctions quoted by Properties/C08.v. *)
 From Coq Require Import ZArith List Bool.
 From AQ Require Export Evm.OpsModel Evm.OpsSpec Evm.OpsTableSpec
-  Evm.OpsProofsArith Evm.OpsProofsGas Evm.OpsProofsJumpdest Evm.OpsProofsTable Evm.OpsProofsMem.
+  Evm.OpsProofsArith Evm.OpsProofsGas Evm.OpsProofsJumpdest Evm.OpsProofsTable Evm.OpsProofsMem Evm.OpsProofsEnv Evm.OpsProofsGasState.
 Import ListNotations.
 Local Open Scope Z_scope.
 
@@ -140,3 +142,68 @@ Theorem memory_ops_all :
   (forall code pc pos cond, cond <> 0 ->
   op_JUMPI code pc pos cond = op_JUMP code pos).
 Proof. exact (conj op_MSTORE_spec (conj op_MLOAD_spec (conj op_MSTORE8_spec (conj mstore_mload (conj op_DATACOPY_spec (conj op_RETURNDATACOPY_bounds (conj op_JUMPI_not_taken op_JUMPI_taken))))))). Qed.
+
+(* SHA3 for any hash H; environment instructions; POP; write protection *)
+Theorem sha3_env_all :
+  (forall (H : list Z -> list Z) mem off len,
+  blen mem < 2^62 -> 0 <= off -> 0 < len -> off + len <= blen mem ->
+  op_SHA3_H H mem off len = Ok (spec_SHA3 H mem off len)) /\
+  (forall (H : list Z -> list Z) mem off, word off ->
+  op_SHA3_H H mem off 0 = Ok (spec_SHA3 H mem off 0)) /\
+  (forall (H : list Z -> list Z) mem off len v,
+  (forall d, length (H d) = 32%nat /\ Forall (fun b => 0 <= b < 256) (H d)) ->
+  op_SHA3_H H mem off len = Ok v -> word v) /\
+  (forall op e input code ret mem pc gas, env_words e ->
+  op_ENV op e input code ret mem pc gas =
+  spec_ENV op (e_address e) (e_origin e) (e_caller e) (e_callvalue e) (e_gasprice e) input code ret
+           (e_coinbase e) (e_time e) (e_number e) (e_difficulty e) (e_gaslimit e) pc (blen mem) gas) /\
+  (forall op e input code ret mem pc gas v, env_words e ->
+  blen input < 2^62 -> blen code < 2^62 -> blen ret < 2^62 -> blen mem < 2^62 ->
+  0 <= pc < two64 -> 0 <= gas < two64 ->
+  op_ENV op e input code ret mem pc gas = Some v -> word v) /\
+  (forall a st, op_POP (a :: st) = Ok st) /\
+  (forall isByz readOnly writes isCall value, word value ->
+  enforceRestrictions isByz readOnly writes isCall value = true <->
+  (isByz = true /\ readOnly = true /\ (writes = true \/ (isCall = true /\ value <> 0)))).
+Proof. exact (conj op_SHA3_spec (conj op_SHA3_spec0 (conj op_SHA3_word (conj op_ENV_spec (conj op_ENV_word (conj op_POP_spec enforceRestrictions_spec)))))). Qed.
+
+(* state-dependent gas functions, the state read passed as arguments *)
+Theorem state_gas_all :
+  (forall cur y, word cur -> word y ->
+  gasSStore cur y = (C_sstore cur y, R_sstore cur y)) /\
+  (forall g eip158 value empty exist w0 ms avail cost,
+  gt_ok g -> 0 < gf_CreateBySuicide g -> word value -> word cost -> 0 <= w0 < 2^32 -> 0 <= ms <= 0x1FFFFFFFE0 -> avail < two64 ->
+  let extra := C_extra (gf_Calls g) eip158 value empty exist in
+  extra + memfee w0 ms <= avail ->
+  gasCall g eip158 value empty exist (32 * w0) (Cmem w0) ms avail cost =
+    Ok (C_call extra (memfee w0 ms) avail cost, C_gascap avail (extra + memfee w0 ms) cost, Cmem (Z.max w0 (ceil32 ms)))) /\
+  (forall g eip158 value empty exist w0 ms avail cost r,
+  gt_ok g -> word value -> word cost -> 0 <= w0 < 2^32 -> 0 <= ms <= 0x1FFFFFFFE0 -> 0 <= avail < two64 ->
+  avail < C_extra (gf_Calls g) eip158 value empty exist + memfee w0 ms ->
+  gasCall g eip158 value empty exist (32 * w0) (Cmem w0) ms avail cost = Ok r -> avail < fst (fst r)) /\
+  (forall g value w0 ms avail cost,
+  gt_ok g -> 0 < gf_CreateBySuicide g -> word value -> word cost -> 0 <= w0 < 2^32 -> 0 <= ms <= 0x1FFFFFFFE0 -> avail < two64 ->
+  let extra := gf_Calls g + C_xfer value in
+  extra + memfee w0 ms <= avail ->
+  gasCallCode g value (32 * w0) (Cmem w0) ms avail cost =
+    Ok (C_call extra (memfee w0 ms) avail cost, C_gascap avail (extra + memfee w0 ms) cost, Cmem (Z.max w0 (ceil32 ms)))) /\
+  (forall g w0 ms avail cost,
+  gt_ok g -> 0 < gf_CreateBySuicide g -> word cost -> 0 <= w0 < 2^32 -> 0 <= ms <= 0x1FFFFFFFE0 -> avail < two64 ->
+  gf_Calls g + memfee w0 ms <= avail ->
+  gasDelegateCall g (32 * w0) (Cmem w0) ms avail cost =
+    Ok (C_call (gf_Calls g) (memfee w0 ms) avail cost, C_gascap avail (gf_Calls g + memfee w0 ms) cost, Cmem (Z.max w0 (ceil32 ms)))) /\
+  (gasStaticCall = gasDelegateCall) /\
+  (forall g eip150 eip158 empty exist bal already, gt_ok g ->
+  gasSuicide g eip150 eip158 empty exist bal already =
+    (C_selfdestruct (gf_Suicide g) (gf_CreateBySuicide g) eip150 eip158 empty exist bal, R_selfdestruct already)) /\
+  (forall g,
+  gasBalance g = gf_Balance g /\ gasExtCodeSize g = gf_ExtcodeSize g /\ gasSLoad g = gf_SLoad g) /\
+  (forall g memLen last ms len fee last', gt_ok g -> word len ->
+  memoryGasCost memLen last ms = Ok (fee, last') -> 0 <= fee < two64 ->
+  gasExtCodeCopy (gt_of_full g) memLen last ms len =
+    if (len <? two64) && (fee + gf_ExtcodeCopy g + 3 * ceil32 len <=? maxU64)
+    then Ok (fee + gf_ExtcodeCopy g + 3 * ceil32 len, last') else Err ErrGasUintOverflow) /\
+  (forall memLen last ms fee last',
+  memoryGasCost memLen last ms = Ok (fee, last') -> 0 <= fee < two64 ->
+  gasCreate memLen last ms = if fee + 32000 <=? maxU64 then Ok (fee + 32000, last') else Err ErrGasUintOverflow).
+Proof. exact (conj gasSStore_spec (conj gasCall_spec (conj gasCall_unaffordable (conj gasCallCode_spec (conj gasDelegateCall_spec (conj gasStaticCall_eq (conj gasSuicide_spec (conj gas_table_lookups (conj gasExtCodeCopy_formula gasCreate_formula))))))))). Qed.
